@@ -65,6 +65,9 @@ func configs(thorough bool) []cfg {
 		mk("CTRHMAC", 16, 16, "SHA256", "SHA256", 16, 0, 0, "subtle"),
 		mk("CTRHMAC", 32, 32, "SHA512", "SHA512", 10, 1, 1, "subtle"),
 		mk("CTRHMAC", 32, 32, "SHA256", "SHA256", 32, 2, 0, "keyset"),
+		// main key LONGER than the derived keys (the HKDF output is sized by the derived key size, not by the main key)
+		mk("CTRHMAC", 32, 16, "SHA256", "SHA256", 16, 3, 0, "subtle"),
+		mk("CTRHMAC", 32, 16, "SHA512", "SHA256", 20, 1, 0, "keyset"),
 	}
 	if thorough {
 		// Every value of every dimension appears, and the dimensions that drive the hand-written cursor logic
@@ -767,10 +770,12 @@ func writerFaultSection(x *h.X) {
 	}
 	w.Close()
 	calls := probe.Calls
-	for k := 0; k < calls; k++ {
+	for kk := 0; kk < 2*calls; kk++ {
+		k := kk % calls
 		x.Eval(1)
 		sink := env.NewScriptWriter()
 		sink.FailFrom = k
+		sink.FullCount = kk >= calls // second pass: the failing writer reports the full count together with its error
 		surfaced := ""
 		panicked, pmsg := h.Try(func() {
 			w, err := p.NewEncryptingWriter(sink, nil)
@@ -988,6 +993,7 @@ func main() {
 			{Name: "reader-faults", Body: readerFaultSection, Bound: -1},
 			{Name: "template-size-segments", Body: largeSegmentSection, Bound: -1},
 			{Name: "many-segments", Body: manySegmentsSection, Bound: -1},
+			{Name: "keyset-mixed-segment-sizes", Body: mixedSegmentsSection, Bound: -1},
 			{Name: "noncebased-custom", Body: nonceBasedSection, Bound: -1},
 			{Name: "interleaved-streams", Body: interleavedSection, Bound: -1},
 		})
